@@ -140,10 +140,14 @@ func (h *Hub) Shutdown() {
 	for _, c := range connections {
 		c.CloseConnection(false, 0, "")
 	}
-	if h.httpServer == nil {
+	h.muxStarted.Lock()
+	httpServer := h.httpServer
+	h.muxStarted.Unlock()
+
+	if httpServer == nil {
 		return
 	}
-	if err := h.httpServer.Shutdown(context.Background()); err != nil {
+	if err := httpServer.Shutdown(context.Background()); err != nil {
 		logging.Log().Error("HTTP server shutdown:", err)
 	}
 }
